@@ -1,13 +1,13 @@
 # tier budgets (sourced by bin/check): runs and wall-clock budget of the exploration phase
 # (quick: measured 30-50 s on 16 idle cores; the wall-clock budget cuts the batch on a loaded machine)
-runs_quick=3800; budget_quick=60s
+runs_quick=3400; budget_quick=60s
 runs_thorough=120000; budget_thorough=25m
 case "$ID" in
- C04) runs_quick=5500 ;;
+ C04) runs_quick=3000 ;;
  C05) runs_quick=7500 ;;
  C07) runs_quick=2400 ;;
  C08) runs_quick=2000 ;;
- C09|C10) runs_quick=3400 ;;
+ C09|C10) runs_quick=3000 ;;
  C11|C12) runs_quick=3000 ;;
  C13) runs_quick=1600 ;;
  C14) runs_quick=1800 ;;
